@@ -168,6 +168,9 @@ func (r *reference) resolve(cfg *Config, opts *options) (value, error) {
 	// not found in any tree - not set, cyclic, or the path runs into a value that is
 	// no object: the resolvers are asked
 	previousErr := err
+	if isCyclicError(previousErr) && !r.absorbOnce(opts) {
+		return nil, previousErr
+	}
 
 	s, _, err := r.resolveEnv(cfg, opts)
 	if err != nil {
@@ -183,6 +186,14 @@ func (r *reference) resolve(cfg *Config, opts *options) (value, error) {
 	}
 
 	return newString(context{field: r.Path.String()}, nil, s), nil
+}
+
+// absorbOnce notes that the re-entry of r (a cyclic reference) is about to be handed to
+// the resolvers. A resolver may absorb such an error, but only once on the way down: when
+// its answer mentions the name again (an environment variable that holds "[${NAME}]"), the
+// next re-entry stays a cyclic reference error instead of asking the resolver without end.
+func (r *reference) absorbOnce(opts *options) bool {
+	return opts.activeFields.AddNew("\x00absorbed:" + r.Path.String())
 }
 
 func (r *reference) eval(cfg *Config, opts *options) (string, error) {
